@@ -1045,7 +1045,7 @@ impl DeepProg {
     pub fn render(&self) -> String {
         let d = self.depth as usize;
         let mut s = String::new();
-        match self.style % 3 {
+        match self.style % 4 {
             0 => {
                 s.push('+');
                 for _ in 0..d {
@@ -1071,6 +1071,25 @@ impl DeepProg {
                 }
                 s.push('.');
             }
+            3 => {
+                // a nest of input-conditioned loops that each run at most once (`>,[ ... [-]]<`), with a store in
+                // the innermost body to a cell no enclosing block reads, printed at the end
+                for _ in 0..d {
+                    s.push_str(">,[")
+                }
+                for _ in 0..d {
+                    s.push('<')
+                }
+                s.push_str("[-]+++");
+                for _ in 0..d {
+                    s.push('>')
+                }
+                s.push_str("[-]]");
+                for _ in 1..d {
+                    s.push_str("<[-]]")
+                }
+                s.push_str("<.");
+            }
             _ => {
                 // skipped deep nest followed by an executed one
                 for _ in 0..d {
@@ -1095,7 +1114,7 @@ impl DeepProg {
 }
 
 pub fn deep_prog(max_depth: u16) -> impl Strategy<Value = DeepProg> {
-    (50u16..max_depth, 0u8..3, 0u8..9).prop_map(|(depth, style, out_every)| DeepProg { depth, style, out_every })
+    (50u16..max_depth, 0u8..4, 0u8..9).prop_map(|(depth, style, out_every)| DeepProg { depth, style, out_every })
 }
 
 // ---------------------------------------------------------------- G-hibits
